@@ -7,10 +7,27 @@ Oracle (independent printer): the expected output is computed from the abstract 
 "one run of blanks ending in a newline is dropped directly after a block's opening, continuation or closing tag" itself;
 tag-free sources must render to themselves; render(a + b) == render(a) + render(b) for pairs whose junction creates no tag
 (unless b starts with such a line end right after a block tag ending a).
+Literal text also holds *tag candidates that are not tags* (kept apart from the generator's tags by private-use marks that
+are stripped before the source is used): nameless candidates, malformed entities, %( candidates without a name / format,
+and named candidates that are never terminated -- '<dtml-var "' with an unbalanced quote, '<!--#var x' without '-->',
+'%(x' without ')'.  Whether such a candidate is text is decided on the final source by the documented terminator rule
+(cand_is_text), never by asking the scanner; sources where later text terminates a candidate are left out and counted.
+Every candidate is also put, deterministically, in front of every kind of tag in every block context (battery).
+Histories: the text rendered is that of the template's CURRENT source.  One object is edited (munge / manage_edit /
+cook), a source seen before is compiled again by a new object and by the other class (HTML <-> String: the other
+syntax's tags are plain text there); File / HTMLFile templates are created on a file, the file is rewritten (new object
+on the same path, re-cook, unpickle), edited through edited_source / manage_edit, reverted (manage_default) and read
+through the other file class.  Expected output at every step: the independent printer applied to the abstract template
+that is the current source.
 Correspondence: token streams and compiled trees (with all literal nodes) of the Lean scanner/builder model vs the real
 parser on the same sources and on raw fragment soups.
 """
 import json
+import os
+import pickle
+import re
+import shutil
+import tempfile
 
 import common
 import parselib
@@ -35,43 +52,132 @@ def skip_eol(t):
 # behind it (before the next '>' / '-->') is still a tag
 NAMELESS = ['<dtml-1', '<dtml- 1', '<dtml-.', '</dtml-1', '</dtml- 2', '<!--#1', '<!--# 1', '<!--#-']
 
+# Tag candidates inside literal text.  In the abstract template a candidate is written  M0 kind fragment M1  (private-use
+# characters, stripped before the source is handed to the library) so that its position in the printed source is known.
+#   L  text whatever follows: no tag name at the name position (the fragment carries the non-letter), an entity whose body
+#      is not a name / has no '-name' part, a %( candidate without a name or without a format character
+#   Q  <dtml- / </dtml- candidate, text iff no '>' behind it is preceded by an even number of '"' counted from the candidate
+#      (a '>' inside a quoted attribute value does not close a tag) — e.g. a stray '"' behind it and balanced quotes after
+#   S  <!--# candidate, text iff no '-->' follows anywhere behind it
+#   P  %( candidate, text iff no ')' follows anywhere behind it
+M0, M1 = '\ue000', '\ue001'
+MARK_RE = re.compile(M0 + '(.)([^' + M1 + ']*)' + M1, re.S)
+CANDS = {
+    'L': [f + g for f in NAMELESS for g in ('1', '.', '1 ')] +
+         ['&dtml-x y;', '&dtml-;', '&dtml.x;', '&dtml-x ', '&dtml-x"y;', '&dtml.html_quote;',
+          '%( x)s', '%()s', '%("x")s', '%(x) ', '%(x)#', '%(x)1 ', '%(x)\n', '%(if flag) [', '%(x)1.5 '],
+    'Q': ['<dtml-"', '</dtml-"', '<dtml-var "', '<dtml-var expr="a > b', '<dtml-var expr="x', '</dtml-if "', '<dtml-in items"',
+          '<dtml-if flag"', '<dtml-else "', '<dtml-var x', '</dtml-if', '<dtml-comment "', '</dtml-comment "', '</dtml-in "',
+          '<dtml-var x"\'', '<dtml-call "x', '<dtml-var name="x" "', '<dtml-"""'],
+    'S': ['<!--#var x ', '<!--#if flag', '<!--#/if', '<!--#end in ', '<!--#else', '<!--#comment', '<!--#var "x" --'],
+    'P': ['%(x', '%(if flag', '%(x fmt="a', '%(/if', '%(x y'],
+}
+ALL_CANDS = [(k, f) for k in 'LQSP' for f in CANDS[k]]
+
+
+def mark(kind, frag):
+    return M0 + kind + frag + M1
+
+
+def unmark(text):
+    return MARK_RE.sub(lambda m: m.group(2), text)
+
+
+def unmark_tree(x):
+    if isinstance(x, str):
+        return unmark(x)
+    if isinstance(x, (list, tuple)):
+        return type(x)(unmark_tree(y) for y in x)
+    return x
+
+
+def split_marks(msrc):
+    """marked source -> (source, [(position, kind, fragment)])"""
+    out, cands, n, i = [], [], 0, 0
+    for m in MARK_RE.finditer(msrc):
+        piece = msrc[i:m.start()]
+        out.append(piece)
+        n += len(piece)
+        cands.append((n, m.group(1), m.group(2)))
+        out.append(m.group(2))
+        n += len(m.group(2))
+        i = m.end()
+    out.append(msrc[i:])
+    return ''.join(out), cands
+
+
+def open_to_end(src, n):
+    """the documented terminator of a <dtml-…> tag is the first '>' outside double quotes: none behind n?"""
+    quotes = 0
+    for ch in src[n:]:
+        if ch == '"':
+            quotes += 1
+        elif ch == '>' and quotes % 2 == 0:
+            return False
+    return True
+
+
+def cand_is_text(kind, src, cand):
+    """is the candidate (position, kind, fragment) plain text of `src` for class `kind` ('html' | 'epfs')?  Decided from
+    the syntax rules alone."""
+    p, k, frag = cand
+    if k == 'L':
+        return True
+    if k == 'Q':
+        return kind != 'html' or open_to_end(src, p + (7 if frag.startswith('</') else 6))
+    if k == 'S':
+        return kind != 'html' or src.find('-->', p + 5) < 0
+    if k == 'P':
+        return kind != 'epfs' or src.find(')', p + 2) < 0
+    raise ValueError(k)
+
+
+def cands_are_text(kind, src, cands):
+    return all(cand_is_text(kind, src, c) for c in cands)
+
+
+def lit_ok(t):
+    """outside the marked candidates the text holds no tag opener (candidates begin with a complete opener and end in a
+    character that begins none, so no opener straddles a mark)"""
+    return all(tmplgen.inert(p) for p in MARK_RE.sub('\0', t).split('\0'))
+
+
+def gen_cand(r):
+    k = r.choice('LLLLQQQQSP')
+    return mark(k, r.choice(CANDS[k]))
+
 
 def gen_lit(r):
-    if r.random() < 0.12:
-        return '\0' + r.choice(NAMELESS) + r.choice(['1', '.', '1 '])
+    if r.random() < 0.14:
+        return gen_cand(r)
     if r.random() < 0.35:
         # a line end (possibly after blanks) — what the skipping rule is about
         return r.choice(['\n', ' \n', '\t\n', '  \n', '\n\n', ' \n x', '\r\n', ' \r\n', '\n ', ' x\n', '\r', '\x0b\n', '\xa0\n'])
     return tmplgen.gen_lit(r)
 
 
-def nameless_only(t):
-    """every tag opener in t is one of the nameless fragments followed by a non-letter"""
-    import re
-    u = t
-    for frag in sorted(NAMELESS, key=len, reverse=True):
-        u = re.sub(re.escape(frag) + r'(?![A-Za-z/])', '', u)
-    return tmplgen.inert(u)
+def merge_lits(nodes):
+    merged = []
+    for n in nodes:
+        if n[0] == 'lit' and merged and merged[-1][0] == 'lit':
+            merged[-1] = ('lit', merged[-1][1] + n[1])
+        else:
+            merged.append(n)
+    return merged
 
 
 def gen_body(r, depth, width=3):
     out = []
     for _ in range(r.randint(0, width)):
         t = gen_lit(r)
-        if t and (t.startswith('\0') or tmplgen.inert(t)):
-            out.append(('lit', t.lstrip('\0')))
+        if t and lit_ok(t):
+            out.append(('lit', t))
         out.append(gen_node(r, depth))
     t = gen_lit(r)
-    if t and (t.startswith('\0') or tmplgen.inert(t)):
-        out.append(('lit', t.lstrip('\0')))
+    if t and lit_ok(t):
+        out.append(('lit', t))
     # merge adjacent literals (the generator's notion of "one literal" must match the source)
-    merged = []
-    for n in out:
-        if n[0] == 'lit' and merged and merged[-1][0] == 'lit':
-            merged[-1] = ('lit', merged[-1][1] + n[1])
-        else:
-            merged.append(n)
-    return [n for n in merged if n[0] != 'lit' or tmplgen.inert(n[1]) or nameless_only(n[1])]
+    return [n for n in merge_lits(out) if n[0] != 'lit' or lit_ok(n[1])]
 
 
 def gen_node(r, depth):
@@ -84,7 +190,8 @@ def gen_node(r, depth):
     if k == 'call':
         return ('call', ('name', 'x'))
     if k == 'comment':
-        return ('comment', [('lit', tmplgen.gen_lit(r) or 'c')])
+        t = gen_lit(r)
+        return ('comment', [('lit', t if t and lit_ok(t) else 'c')])
     if k == 'if':
         conds = [(('name', r.choice(['flag', 'n1'])), gen_body(r, depth - 1, 2)) for _ in range(r.randint(1, 3))]
         els = gen_body(r, depth - 1, 2) if r.random() < 0.5 else None
@@ -228,7 +335,7 @@ def evaluate(nodes):
 
 
 def expected(tmpl):
-    return evaluate(adjust(tmpl, {'ab': False}))
+    return evaluate(adjust(unmark_tree(tmpl), {'ab': False}))
 
 
 class O:
@@ -236,15 +343,24 @@ class O:
         self.i = i
 
 
+def namespace():
+    ns = dict(SENT)
+    ns.update(flag=1, n1=0, items=[O(1), O(2)], none=[], obj=O(3))
+    return ns
+
+
+def outcome(fn):
+    try:
+        return {'ok': fn()}
+    except Exception as e:  # noqa
+        return {'raise': '%s: %s' % (type(e).__name__, str(e)[:200])}
+
+
 def render(kind, src):
     from DocumentTemplate import HTML, String
     cls = HTML if kind == 'html' else String
-    ns = dict(SENT)
-    ns.update(flag=1, n1=0, items=[O(1), O(2)], none=[], obj=O(3))
-    try:
-        return {'ok': cls(src)(**ns)}
-    except Exception as e:  # noqa
-        return {'raise': '%s: %s' % (type(e).__name__, str(e)[:200])}
+    ns = namespace()
+    return outcome(lambda: cls(src)(**ns))
 
 
 def last_is_block(tmpl):
@@ -263,6 +379,13 @@ def junction_inert(sa, sb):
     return True
 
 
+def printed(tmpl, syn, r):
+    """(class kind, source, candidates) of the marked abstract template"""
+    kind, msrc = tmplgen.render_source(tmpl, syn, r)
+    src, cands = split_marks(msrc)
+    return kind, src, cands
+
+
 # --------------------------------------------------------------------------- tag-free sources
 
 PLAIN = ['<', '<d', '<dtml', '<!--', '<!-', '&dt', '&dtml', '&', '%', '% (', ';', '>', '-->', '--', '"', "'", '\n', ' \n',
@@ -271,11 +394,25 @@ PLAIN = ['<', '<d', '<dtml', '<!--', '<!-', '&dt', '&dtml', '&', '%', '% (', ';'
 
 
 def gen_plain(r):
+    """tag-free text (marked: it may hold candidates that are not tags)"""
     for _ in range(20):
-        t = ''.join(r.choice(PLAIN) for _ in range(r.randint(0, 12)))
-        if tmplgen.inert(t):
+        parts = [r.choice(PLAIN) for _ in range(r.randint(0, 12))]
+        if r.random() < 0.3:
+            for _ in range(r.randint(1, 2)):
+                parts.insert(r.randint(0, len(parts)), gen_cand(r))
+        t = ''.join(parts)
+        if lit_ok(t):
             return t
     return 'plain'
+
+
+def text_only_for(kind, msrc):
+    """the (marked) source holds no tag of class `kind`: only marked candidates that are text there and text without
+    an opener of that class"""
+    src, cands = split_marks(msrc)
+    rest = MARK_RE.sub('\0', msrc)
+    openers = ['%('] if kind == 'epfs' else [o for o in tmplgen.OPENERS if o != '%(']
+    return not any(o in rest for o in openers) and cands_are_text(kind, src, cands)
 
 
 # --------------------------------------------------------------------------- the check
@@ -316,34 +453,246 @@ def compile_corr(res, cases, have_driver):
                                       'diff': 'tokens'})
 
 
-def run_checks(res, r, n_tmpl, n_plain, n_pairs, have_driver):
+def check_template(res, r, t, corr_cases, label='tmpl'):
+    """the marked abstract template in the three syntaxes against the independent printer"""
+    exp = expected(t)
+    for syn in ('dtml', 'ssi', 'epfs'):
+        kind, src, cands = printed(t, syn, r)
+        if not cands_are_text(kind, src, cands):
+            # later text terminates a named candidate: by the syntax rules it IS a tag (spanning the text in between)
+            res.count(label + '_excluded_candidate_terminated')
+            continue
+        got = render(kind, src)
+        res.evaluations += 1
+        res.count('syntax=' + syn)
+        if cands:
+            res.count(label + '_with_candidates')
+            for c in cands:
+                if c[1] != 'L' and (kind == 'html') == (c[1] in 'QS'):
+                    res.count('open_candidate_%s_%s' % (c[1], 'before_a_tag' if has_opener_behind(kind, src, c) else 'in_tail'))
+        if '\n' in src or cands:
+            res.nt((syn, src))
+        if got != {'ok': exp}:
+            res.oracle_fail.append({'case': {'syntax': syn, 'src': src},
+                                    'what': 'expected %r (literals verbatim incl. tag candidates that are no tags, one line end '
+                                            'dropped after block tags); got %r' % (exp, got)})
+        corr_cases.append((kind, src))
+
+
+def has_opener_behind(kind, src, cand):
+    rest = src[cand[0] + len(cand[2]):]
+    return any(o in rest for o in (['%('] if kind == 'epfs' else [o for o in tmplgen.OPENERS if o != '%(']))
+
+
+# small templates of every tag kind put behind each candidate
+BATTERY_TAGS = [
+    [('var', ('name', 'x'), [])],
+    [('var', ('name', 'y'), [('html_quote', None)])],           # printed as &dtml-y; now and then
+    [('if', [(('name', 'flag'), [('lit', '\n  yes <b>\n')])], [('lit', '\n  no\n')]), ('lit', '\nend\n')],
+    [('if', [(('name', 'n1'), [('lit', 'no')]), (('name', 'flag'), [('lit', 'elif')])], [('lit', 'else')])],
+    [('in', ('name', 'items'), [], [('lit', '['), ('var', ('name', 'z'), []), ('lit', ']')], None), ('lit', '.\n')],
+    [('comment', [('lit', 'hidden')]), ('lit', 'shown\n')],
+    [('unless', ('name', 'n1'), [('lit', 'u')])],
+    [('with', ('name', 'obj'), [], [('var', ('name', 'x'), [])])],
+    [('let', [('v0', 'x', False)], [('lit', 'l')])],
+    [('try', [('lit', 't')], [('', [('lit', 'h')])], [('lit', 'e')], None)],
+    [('call', ('name', 'x')), ('lit', 'called')],
+]
+
+
+def battery(res, r, corr_cases, stride=1):
+    """every candidate in front of every kind of tag, at top level and inside block bodies"""
+    i = 0
+    for k, frag in ALL_CANDS:
+        for tags in BATTERY_TAGS:
+            i += 1
+            if i % stride:
+                continue
+            for ctx in ('top', 'in', 'if', 'else', 'two'):
+                lit = ('lit', r.choice(['', 'A ', '"a" ', '\n']) + mark(k, frag) + r.choice(['', ' B\n', ' ', ';', '\n']))
+                body = [lit] + tags + [('lit', ' tail')]
+                if ctx == 'two':
+                    k2, f2 = r.choice(ALL_CANDS)
+                    body = [('lit', mark(k2, f2) + ' ')] + body
+                if not all(n[0] != 'lit' or lit_ok(n[1]) for n in merge_lits(body)):
+                    continue
+                body = merge_lits(body)
+                if ctx == 'in':
+                    t = [('in', ('name', 'items'), [], body, None)]
+                elif ctx == 'if':
+                    t = [('lit', 'p'), ('if', [(('name', 'flag'), body)], [('lit', 'not this')])]
+                elif ctx == 'else':
+                    t = [('if', [(('name', 'n1'), [('lit', 'not this')])], body), ('lit', 'q')]
+                else:
+                    t = body
+                check_template(res, r, t, corr_cases, 'battery')
+
+
+# --------------------------------------------------------------------------- histories: the CURRENT source is rendered
+
+def nl_tree(x):
+    """what reading a text file does to the source (universal newlines): CR LF and CR become LF"""
+    if isinstance(x, str):
+        return x.replace('\r\n', '\n').replace('\r', '\n')
+    if isinstance(x, (list, tuple)):
+        return type(x)(nl_tree(y) for y in x)
+    return x
+
+
+class Version:
+    """one source text with its independently computed rendering"""
+
+    def __init__(self, kind, msrc, exp):
+        self.kind = kind
+        self.msrc = msrc
+        self.src, self.cands = split_marks(msrc)
+        self.exp = exp
+
+
+def draw_version(r, pool, syn, filemode):
+    for _ in range(12):
+        c = r.random()
+        if c < 0.2:
+            t = [('lit', gen_plain(r))]
+            if not t[0][1]:
+                continue
+        elif c < 0.45:
+            # the concatenation of two templates, as one abstract template (the printer applies the line-end rule at the joint)
+            t = merge_lits(list(r.choice(pool)) + list(r.choice(pool)))
+            if not all(n[0] != 'lit' or lit_ok(n[1]) for n in t):
+                continue
+        else:
+            t = r.choice(pool)
+        if filemode:
+            t = nl_tree(t)
+        kind, msrc = tmplgen.render_source(t, syn, r)
+        v = Version(kind, msrc, expected(t))
+        if v.src and cands_are_text(kind, v.src, v.cands):
+            return v
+    return None
+
+
+def write_file(path, text):
+    with open(path, 'w', newline='') as f:     # no newline translation: the file holds exactly `text`
+        f.write(text)
+
+
+def run_histories(res, r, n, pool):
+    from DocumentTemplate import HTML, String, File, HTMLFile
+    tmp = tempfile.mkdtemp(prefix='c01hist')
+    try:
+        for h in range(n):
+            syn = r.choice(['dtml', 'ssi', 'epfs'])
+            filemode = r.random() < 0.6
+            vs = [draw_version(r, pool, syn, filemode) for _ in range(5)]
+            if any(v is None for v in vs):
+                res.count('history_skipped')
+                continue
+            log = []
+            ns = namespace()
+            state = {'bad': False}
+
+            def step(what, obj, v, exp=None):
+                exp = v.exp if exp is None else exp
+                log.append(what)
+                got = outcome(lambda: obj(**ns))
+                res.evaluations += 1
+                res.count('history_step')
+                res.count('history: ' + what.split(' [')[0])
+                if got != {'ok': exp} and not state['bad']:
+                    state['bad'] = True
+                    res.oracle_fail.append({
+                        'case': {'syntax': syn, 'class': type(obj).__name__, 'history': list(log),
+                                 'sources': [x.src for x in vs], 'current_source': v.src},
+                        'what': 'after %r the template rendered %r; its current source renders to %r (independent printer)'
+                                % (what, got, exp)})
+
+            html = syn != 'epfs'
+            res.nt(('history', syn, filemode, vs[0].src[:30], vs[1].src[:30]))
+            try:
+                if not filemode:
+                    cls, other, okind = (HTML, String, 'epfs') if html else (String, HTML, 'html')
+                    res.count('history_string_class')
+                    o = cls(vs[0].src)
+                    step('new %s(v0)' % cls.__name__, o, vs[0])
+                    step('render again', o, vs[0])
+                    o.munge(vs[1].src)
+                    step('munge(v1)', o, vs[1])
+                    o.manage_edit(vs[2].src)
+                    step('manage_edit(v2)', o, vs[2])
+                    o.cook()
+                    step('cook() again', o, vs[2])
+                    step('another new object on v0, compiled before', cls(vs[0].src), vs[0])
+                    step('another new object on v1, compiled before', cls(vs[1].src), vs[1])
+                    o.munge(vs[0].src)
+                    step('munge(v0): back to the first source', o, vs[0])
+                    for i in (0, 3):
+                        if text_only_for(okind, vs[i].msrc):
+                            step('the other class on v%d: its tags are plain text there' % i, other(vs[i].src), vs[i], vs[i].src)
+                    o.raw = vs[4].src      # the documented way before munge existed: assign, then cook
+                    o.cook()
+                    step('raw = v4; cook()', o, vs[4])
+                else:
+                    cls, other, okind = (HTMLFile, File, 'epfs') if html else (File, HTMLFile, 'html')
+                    res.count('history_file_class')
+                    path = os.path.join(tmp, 'h%d.dtml' % h)
+                    write_file(path, vs[0].src)
+                    f = cls(path)
+                    step('new %s(path), file holds v0' % cls.__name__, f, vs[0])
+                    step('render again', f, vs[0])
+                    write_file(path, vs[1].src)
+                    step('file rewritten with v1; new object on the same path', cls(path), vs[1])
+                    f.cook()
+                    step('first object, cook() after the rewrite', f, vs[1])
+                    write_file(path, vs[2].src)
+                    g = pickle.loads(pickle.dumps(f))
+                    step('file rewritten with v2; first object pickled and loaded (re-reads the file)', g, vs[2])
+                    if text_only_for(okind, vs[2].msrc):
+                        step('the other file class on the same path: v2 holds no tag of its syntax', other(path), vs[2], vs[2].src)
+                    f.edited_source = vs[3].src
+                    f.cook()
+                    step('edited_source = v3; cook()', f, vs[3])
+                    if html:
+                        f.manage_edit(vs[4].src)          # edited already: edits in place
+                        step('manage_edit(v4) of the edited template', f, vs[4])
+                        f.manage_default()
+                    else:
+                        f.edited_source = ''
+                        f.cook()
+                    step('reverted to the file (v2)', f, vs[2])
+                    path2 = os.path.join(tmp, 'h%d-copy.dtml' % h)
+                    write_file(path2, vs[0].src)
+                    step('another file holding v0 again', cls(path2), vs[0])
+            except UnicodeEncodeError:
+                res.count('history_skipped_unencodable')
+            except Exception as e:  # noqa
+                if not state['bad']:
+                    res.oracle_fail.append({'case': {'syntax': syn, 'history': list(log), 'sources': [x.src for x in vs]},
+                                            'what': 'operation after %r raised %s: %s' % (log[-1:] or ['start'], type(e).__name__, e)})
+    finally:
+        shutil.rmtree(tmp, ignore_errors=True)
+
+
+def run_checks(res, r, n_tmpl, n_plain, n_pairs, have_driver, n_hist=0, battery_stride=1):
     corr_cases = []
     tmpls = []
     for _ in range(n_tmpl):
         t = gen_body(r, r.choice([1, 2, 3, 3]), 3)
-        exp = expected(t)
         tmpls.append(t)
-        for syn in ('dtml', 'ssi', 'epfs'):
-            kind, src = tmplgen.render_source(t, syn, r)
-            got = render(kind, src)
-            res.evaluations += 1
-            res.count('syntax=' + syn)
-            if '\n' in src:
-                res.nt((syn, src))
-            if got != {'ok': exp}:
-                res.oracle_fail.append({'case': {'syntax': syn, 'src': src},
-                                        'what': 'expected %r (literals verbatim, one line end dropped after block tags); got %r'
-                                                % (exp, got)})
-            corr_cases.append((kind, src))
+        check_template(res, r, t, corr_cases)
+    battery(res, r, corr_cases, battery_stride)
     # tag-free sources render to themselves
     for _ in range(n_plain):
-        t = gen_plain(r)
+        t, cands = split_marks(gen_plain(r))
         for kind in ('html', 'epfs'):
-            if kind == 'epfs' and '%' in t:
+            if not cands_are_text(kind, t, cands):
+                res.count('tagfree_excluded_candidate_terminated')
                 continue
             got = render(kind, t)
             res.evaluations += 1
             res.count('tagfree')
+            if cands:
+                res.count('tagfree_with_candidates')
             if any(c in t for c in '<&%'):
                 res.nt(('plain', kind, t))
             if got != {'ok': t}:
@@ -354,27 +703,31 @@ def run_checks(res, r, n_tmpl, n_plain, n_pairs, have_driver):
     for _ in range(n_pairs):
         a, b = r.choice(tmpls), r.choice(tmpls)
         syn = r.choice(['dtml', 'ssi', 'epfs'])
-        kind, sa = tmplgen.render_source(a, syn, r)
-        _, sb = tmplgen.render_source(b, syn, r)
+        kind, sa, ca = printed(a, syn, r)
+        _, sb, cb = printed(b, syn, r)
         if not junction_inert(sa, sb):
             res.count('pair_excluded_junction_tag')
             continue
-        if a and a[-1][0] == 'lit' and any(f in a[-1][1] for f in ('<dtml-', '</dtml-', '<!--#')):
-            # a ends in text holding an unterminated tag candidate: b may supply its terminator (a tag spanning the junction)
-            res.count('pair_excluded_open_candidate')
+        # a candidate of a (or b) that text of b terminates is a tag spanning the junction: all must stay text in a, b and a+b
+        cab = ca + [(p + len(sa), k, f) for p, k, f in cb]
+        if not (cands_are_text(kind, sa, ca) and cands_are_text(kind, sb, cb) and cands_are_text(kind, sa + sb, cab)):
+            res.count('pair_excluded_candidate_terminated')
             continue
         # the documented exception: the junction forms a line end (blanks + newline) directly after a block tag of a
+        ua = unmark_tree(a)
         trail = None
-        if last_is_block(a):
+        if last_is_block(ua):
             trail = ''
-        elif len(a) >= 2 and a[-1][0] == 'lit' and not a[-1][1].strip(' \t') and last_is_block(a[:-1]):
-            trail = a[-1][1]
+        elif len(ua) >= 2 and ua[-1][0] == 'lit' and not ua[-1][1].strip(' \t') and last_is_block(ua[:-1]):
+            trail = ua[-1][1]
         if trail is not None and skip_eol(trail + sb) != trail + sb:
             res.count('pair_excluded_line_end_after_block_tag')
             continue
         ra, rb, rab = render(kind, sa), render(kind, sb), render(kind, sa + sb)
         res.evaluations += 1
         res.count('pair')
+        if cab:
+            res.count('pair_with_candidates')
         res.nt(('pair', syn, sa[-20:], sb[:20]))
         if 'ok' in ra and 'ok' in rb and rab != {'ok': ra['ok'] + rb['ok']}:
             res.oracle_fail.append({'case': {'syntax': syn, 'a': sa, 'b': sb},
@@ -391,6 +744,8 @@ def run_checks(res, r, n_tmpl, n_plain, n_pairs, have_driver):
             res.oracle_fail.append({'case': {'syntax': 'html', 'a': sa, 'b': sb},
                                     'what': 'render(a+b) = %r but render(a)+render(b) = %r' % (rab, ra['ok'] + rb['ok'])})
         corr_cases.append(('html', sa + sb))
+    # object histories
+    run_histories(res, r, n_hist, tmpls)
     compile_corr(res, corr_cases, have_driver)
 
 
@@ -398,26 +753,39 @@ def run(res, tier, have_driver):
     r = common.rng('C01')
     res.rule = ('abstract templates (all block tags, nesting <= 3, literals from a near-tag alphabet incl. line ends after '
                 'blanks, CR LF, VT/NBSP before LF) printed in dtml / SSI / EPFS syntax and rendered with sentinel values: output '
-                '== independent printer; tag-free sources render to themselves (HTML and String classes); render(a+b) == '
-                'render(a)+render(b) for random pairs (junction-spanning tags and the documented line-end case excluded); '
-                'non-trivial = sources containing a newline / near-tag character / pair junctions')
+                '== independent printer; literals also hold tag candidates that are no tags (nameless, malformed entities, %( '
+                'without name / format, and named candidates never terminated: unbalanced double quote before every later ">", '
+                'no "-->", no ")"), their being text decided on the final source by the syntax rules (cases where later text '
+                'terminates one are excluded and counted); battery: each of the candidates x 11 tag kinds x {top level, in body, '
+                'if body, else body, behind another candidate} x 3 syntaxes; tag-free sources (with such candidates) render to '
+                'themselves (HTML and String classes); render(a+b) == render(a)+render(b) for random pairs (junction-spanning '
+                'tags and the documented line-end case excluded); histories: one object edited by munge / manage_edit / raw + '
+                'cook, sources compiled before compiled again by new objects and by the other class (other syntax = text), '
+                'File / HTMLFile on a file that is rewritten (new object on the same path, cook, unpickle), edited_source, '
+                'HTMLFile.manage_edit, manage_default, the other file class on the same path, concatenated sources: every '
+                'rendering == independent printer on the CURRENT source; non-trivial = sources containing a newline / '
+                'candidate / near-tag character / pair junctions / histories')
     if tier == 'quick':
-        run_checks(res, r, 400, 1500, 1200, have_driver)
+        run_checks(res, r, 400, 1500, 2000, have_driver, 250)
     else:
-        run_checks(res, r, 6000, 30000, 20000, have_driver)
+        run_checks(res, r, 6000, 30000, 20000, have_driver, 4000)
     res.sample({'example': 'see input_distribution'})
     res.assumptions += ['the hand-compiled scanners are validated against CPython re by the token correspondence, not proved '
                         'equivalent', 'rendering of the tags used by the oracle (sentinel var, fixed-truth if/unless, fixed-length '
-                        'in, with, let, non-raising try) is taken from their documented meaning']
+                        'in, with, let, non-raising try) is taken from their documented meaning',
+                        'a file template reads its file in text mode: CR LF / CR in the file arrive as LF (the oracle applies the '
+                        'same translation to the abstract template before printing it)']
     res.partial.append('render_concat is checked by the oracle; the Lean side proves literal preservation through scanner and '
                        'builder (tokens_lossless, compile_literals, skipEol_spec) and in-order verbatim emission by the '
                        'interpreter (lit_verbatim, blocks_in_order), not yet their composition over a+b')
+    res.partial.append('template object histories (edits, file templates, compiled forms of earlier sources) are decided by the '
+                       'oracle only; the Lean model has no notion of a template object for this property')
 
 
 def search_more(res, tier):
     r = common.rng('C01-more')
     res2 = common.Result('C01')
-    run_checks(res2, r, 3000, 10000, 10000, False)
+    run_checks(res2, r, 3000, 10000, 10000, False, 1500)
     return res2.oracle_fail
 
 
